@@ -148,7 +148,8 @@ def _is_structure_ref(cx, ref):
         return True
     nm = U.norm_fn_name(ref["name"])
     if nm == "":
-        return True
+        fb = cx.duke.by_key.get(ref["key"])
+        return fb is not None and ("PoolWrite" in (fb.get("impl_ty") or "") or "PoolRead" in (fb.get("impl_ty") or ""))
     return cx.rfn("read_" + nm) is not None or any(b.get("name") == "read_" + nm and b["key"].startswith(RD) for b in cx.duke.bodies)
 
 
@@ -532,6 +533,7 @@ def r02_1(cx, R, S):
     if R.anchor("R02.1", "fn PoolRead::read / PoolWrite::write", pr and pw):
         ri, wi = cx.main(pr, "r"), cx.main(pw, "w")
         ralt = next((it for (_b, it) in _flat_items(ri) if it.get("i") == "alt"), None)
+        wi = expand_helper_refs(cx, wi)
         walt = next((it for (_b, it) in _flat_items(wi) if it.get("i") == "alt"), None)
         R.inst("R02.1", "pool:count", bool(ri) and bool(wi) and ri[0].get("i") == "p" and wi[0].get("i") == "p" and ri[0]["t"] == wi[0]["t"] == "u16" and
                wi[0].get("f") == "count", sp=pw["sp"], expect="u16 constant_pool_count = PoolWrite.count", got=U.show(wi[:1]))
@@ -770,7 +772,14 @@ def r02_2_3(cx, R, S):
                 else:
                     other.append(n)
             elif n.get("k") == "assign" and H.local_of(n["l"]) and H.local_of(n["l"])[0] == cid:
-                other.append(n)
+                r_ = H.peel(n["r"], refs=False)
+                def is_c(e):
+                    l_ = H.local_of(e)
+                    return l_ is not None and l_[0] == cid
+                if r_.get("k") == "bin" and r_["op"] == "+" and ((is_c(r_["l"]) and H.const_value(r_["r"]) == 1) or (is_c(r_["r"]) and H.const_value(r_["l"]) == 1)):
+                    incs.append(n)
+                else:
+                    other.append(n)
         R.inst("R02.3", "count-only-incremented:%s" % loc, not other, sp=other[0]["sp"] if other else wb["sp"],
                got=[H.render(x) for x in other] or None, nontrivial=False)
         by_block = {}
@@ -877,6 +886,9 @@ def r02_4(cx, R, S):
                 reads.setdefault((n["adt"], n["name"]), []).append((b, n))
             elif k == "mcall" and n["name"] == "into":
                 t = (H.peel(n["recv"]).get("ty") or "").lstrip("&").strip()
+                conv.add(t)
+            elif k == "call" and H.callee_name(n) == "from" and ((n.get("callee") or {}).get("path") or "").startswith("core::convert::From") and n["args"]:
+                t = (H.peel(n["args"][0]).get("ty") or "").lstrip("&").strip()
                 conv.add(t)
             elif k == "mcall" and ((n.get("callee") or {}).get("key") or "").startswith("duke::tree::"):
                 # converted by a method of the tree type itself (ArrayType::to_atype, checked as a table in R02.9)
@@ -1016,6 +1028,18 @@ class EvalW(T.Evaluator):
         self.helpers = []      # (helper name, [arg values], node)
         self.asked = set()
 
+    def ev(self, n, env):
+        if n.get("k") == "bin" and n.get("op") in ("&&", "||"):
+            q = _i16_range_test(n)
+            if q is not None:
+                x, inside = q
+                v = super().ev(x, env)
+                if v[0] == "i":
+                    return ("b", (-32768 <= v[1] <= 32767) == inside)
+                self.asked.add("fits")
+                return ("b", bool(self.mode.get("fits", True)) == inside)
+        return super().ev(n, env)
+
     def call(self, n, c, args, env):
         name = H.callee_name(n)
         tr = c.get("trait") or ""
@@ -1063,6 +1087,10 @@ class EvalW(T.Evaluator):
         if name == "get" and "Labels" in owner:
             self.asked.add("resolved")
             return T.V("Some", T.sym("target")) if self.mode.get("resolved") else T.V("None")
+        if name == "contains" and "range::Range" in owner and args and args[-1][0] != "i":
+            # `(i16::MIN as i32..=i16::MAX as i32).contains(&offset)` on a symbolic offset: the same run-time question as try_from
+            self.asked.add("fits")
+            return ("b", bool(self.mode.get("fits", True)))
         if name == "contains" and "HashSet" in owner:
             self.asked.add("wide")
             return ("b", bool(self.mode.get("wide")))
@@ -1081,6 +1109,47 @@ class EvalW(T.Evaluator):
         if name in ("to_atype", "get_arguments_size"):
             return T.sym(name) if name == "to_atype" else T.V("Ok", T.sym(name))
         return super().call(n, c, args, env)
+
+
+def _bound(n):
+    """(operand, 'lo'|'hi', strict-normalised bound) for a comparison of an operand with an integer constant."""
+    n = H.peel(n, refs=False)
+    if n.get("k") != "bin" or n["op"] not in ("<", "<=", ">", ">="):
+        return None
+    lv, rv = H.const_value(n["l"]), H.const_value(n["r"])
+    op = n["op"]
+    if isinstance(rv, int) and not isinstance(lv, int):
+        x, c = n["l"], rv
+    elif isinstance(lv, int) and not isinstance(rv, int):
+        x, c = n["r"], lv
+        op = {"<": ">", "<=": ">=", ">": "<", ">=": "<="}[op]
+    else:
+        return None
+    # x op c  ->  inclusive bound
+    if op == ">=":
+        return x, "lo", c
+    if op == ">":
+        return x, "lo", c + 1
+    if op == "<=":
+        return x, "hi", c
+    return x, "hi", c - 1
+
+
+def _i16_range_test(n):
+    """(operand, True) for `x >= i16::MIN && x <= i16::MAX`, (operand, False) for `x < i16::MIN || x > i16::MAX` (any spelling), else None."""
+    a, b = _bound(n["l"]), _bound(n["r"])
+    if not a or not b or H.render(H.peel(a[0], casts=True)) != H.render(H.peel(b[0], casts=True)):
+        return None
+    if n["op"] == "&&":
+        d = {a[1]: a[2], b[1]: b[2]}
+        if d == {"lo": -32768, "hi": 32767}:
+            return a[0], True
+    else:
+        # outside: x <= -32769 (hi bound) or x >= 32768 (lo bound)
+        d = {a[1]: a[2], b[1]: b[2]}
+        if d == {"hi": -32769, "lo": 32768}:
+            return a[0], False
+    return None
 
 
 def _instr_match(wc):
@@ -1385,8 +1454,8 @@ def r02_5_9(cx, R, S):
     R.inst("R02.5", "jump-sites", sorted(v for v in if_sites if if_sites[v][0] == "if_helper") ==
            sorted(v for v, _n in variants if v.startswith("If")), sp=m["sp"], nontrivial=False,
            expect="16 conditional branches through if_helper", got=len(if_sites))
-    _helpers(cx, R, S, rt, prim_of_all=None)
     _fixup_loop(cx, R, S, wc)
+    _helpers(cx, R, S, rt, prim_of_all=None)
     _switch_checks(cx, R, S, wc, m)
     _offset_fn(cx, R, S)
     _atype(cx, R, S)
@@ -1418,9 +1487,13 @@ class EvalH(EvalW):
     def call(self, n, c, args, env):
         nw, npush = len(self.writes), len(self.pushes)
         name = H.callee_name(n)
-        if name in ("put_i16_at", "put_i32_at"):
-            self.trace.append(("put", name, args))
+        fb = _patch_fn(c)
+        if fb is not None:
+            self.trace.append(("put", fb["inputs"][2], args, fb))
             return ("t", [])
+        if name == "insert" and "HashSet" in (c.get("impl_ty") or c.get("path") or ""):
+            self.trace.append(("insert", args[1]))
+            return ("b", True)
         if name == "try_get" and "Labels" in (c.get("impl_ty") or ""):
             return T.V("Ok", T.V("target-of", args[1]))
         r = super().call(n, c, args, env)
@@ -1431,11 +1504,32 @@ class EvalH(EvalW):
         return r
 
 
+def _patch_fn(callee):
+    """The function record when `callee` is one of the writer's byte-patching helpers, recognised by role: a private function
+    (buffer: &mut [u8] / &mut Vec<u8>, position: usize, value: i16 | i32) -> ()."""
+    if _DUKE is None:
+        return None
+    fb = _inline_map(_DUKE).get(callee.get("inst_key") or callee.get("key"))
+    if fb is None:
+        return None
+    ins = fb.get("inputs") or []
+    if len(ins) == 3 and ins[1] == "usize" and ins[2] in ("i16", "i32") and ins[0].startswith("&mut") and ("[u8]" in ins[0] or "Vec<u8>" in ins[0]):
+        return fb
+    return None
+
+
 def _st(v, f):
     return v[2].get(f) if v and v[0] == "st" else None
 
 
 def _helpers(cx, R, S, rt, prim_of_all):
+    # the roles of the pending-label record's fields are those the fix-up loop gives them (consumer side), see _fixup_loop
+    RF = dict(getattr(cx, "unwritten_found", {}) or {})
+    roles = unwritten_roles(cx, cx.wfn("write_code")) if cx.wfn("write_code") else None
+    if roles:
+        RF["wide"] = roles["wide"]
+    if not R.anchor("R02.5", "roles of the pending-label record's fields (from the fix-up loop)", all(RF.get(k) for k in ("base", "pos", "label", "index", "wide"))):
+        return
     by_mn = {o["mnemonic"]: o for o in S["opcodes"]}
     GOTO_W = by_mn["goto_w"]["value"]
     OP, OPP = by_mn["ifeq"]["value"], by_mn["ifne"]["value"]
@@ -1480,9 +1574,9 @@ def _helpers(cx, R, S, rt, prim_of_all):
                                expect="offset(position of the goto_w = opcode_pos + %d, target)" % (sizes[0] + sizes[1]), got=T.show(ws[3][1]))
                     else:
                         u = pushes[0] if len(pushes) == 1 else None
-                        R.inst("R02.5", key + ":unwritten-record", u is not None and _st(u, "opcode_pos") == ("i", base) and
-                               _st(u, "label_write_pos") == ("i", POS + sizes[0] + sizes[1] + sizes[2]) and _st(u, "wide") == ("b", True) and
-                               _st(u, "instruction_index") == ("i", 7) and _st(u, "label") == T.sym("label"), sp=sp,
+                        R.inst("R02.5", key + ":unwritten-record", u is not None and _st(u, RF["base"]) == ("i", base) and
+                               _st(u, RF["pos"]) == ("i", POS + sizes[0] + sizes[1] + sizes[2]) and _st(u, RF["wide"]) == ("b", True) and
+                               _st(u, RF["index"]) == ("i", 7) and _st(u, RF["label"]) == T.sym("label"), sp=sp,
                                expect="opcode_pos = address of the goto_w (+%d), label_write_pos = its operand (+%d), wide = true (i32 reserved)" %
                                       (sizes[0] + sizes[1], sizes[0] + sizes[1] + sizes[2]), got=T.show(u) if u else len(pushes))
             if hname == "goto_helper" and mname in ("near", "far"):
@@ -1494,15 +1588,15 @@ def _helpers(cx, R, S, rt, prim_of_all):
             if hname == "goto_helper" and mname == "forward-wide":
                 u = pushes[0] if len(pushes) == 1 else None
                 shape = [nm for (nm, _v) in ws] == ["write_u8", "write_i32"] and ws[0][1] == ("i", o2)
-                R.inst("R02.5", key, shape and okres and u is not None and _st(u, "opcode_pos") == ("i", POS) and _st(u, "label_write_pos") == ("i", POS + 1)
-                       and _st(u, "wide") == ("b", True) and _st(u, "instruction_index") == ("i", 7) and _st(u, "label") == T.sym("label"), sp=sp,
+                R.inst("R02.5", key, shape and okres and u is not None and _st(u, RF["base"]) == ("i", POS) and _st(u, RF["pos"]) == ("i", POS + 1)
+                       and _st(u, RF["wide"]) == ("b", True) and _st(u, RF["index"]) == ("i", 7) and _st(u, RF["label"]) == T.sym("label"), sp=sp,
                        expect="wide opcode + i32 placeholder; record {opcode_pos, label_write_pos = opcode_pos+1, wide = true}",
                        got=(_writes_show(ev.writes), T.show(u) if u else len(pushes)))
             if mname == "forward-narrow":
                 u = pushes[0] if len(pushes) == 1 else None
                 shape = [nm for (nm, _v) in ws] == ["write_u8", "write_i16"] and ws[0][1] == ("i", o1)
-                R.inst("R02.5", key, shape and okres and u is not None and _st(u, "opcode_pos") == ("i", POS) and _st(u, "label_write_pos") == ("i", POS + 1)
-                       and _st(u, "wide") == ("b", False) and _st(u, "instruction_index") == ("i", 7) and _st(u, "label") == T.sym("label"), sp=sp,
+                R.inst("R02.5", key, shape and okres and u is not None and _st(u, RF["base"]) == ("i", POS) and _st(u, RF["pos"]) == ("i", POS + 1)
+                       and _st(u, RF["wide"]) == ("b", False) and _st(u, RF["index"]) == ("i", 7) and _st(u, RF["label"]) == T.sym("label"), sp=sp,
                        expect="opcode + i16 placeholder; record {opcode_pos, label_write_pos = opcode_pos+1, wide = false}",
                        got=(_writes_show(ev.writes), T.show(u) if u else len(pushes)))
             if hname == "switch_helper":
@@ -1512,12 +1606,12 @@ def _helpers(cx, R, S, rt, prim_of_all):
                 else:
                     u = pushes[0] if len(pushes) == 1 else None
                     order = [t[0] for t in ev.trace]
-                    lwp = _st(u, "label_write_pos")
+                    lwp = _st(u, RF["pos"])
                     # label_write_pos = len() of the buffer the placeholder is written to, taken before writing
                     wparam = T.sym(H.pat_bindings(fb["params"][0])[0][1])
                     R.inst("R02.5", key, [nm for (nm, _v) in ws] == ["write_i32"] and okres and u is not None and order == ["push", "write"] and
-                           lwp == T.V("len", wparam) and _st(u, "wide") == ("b", True) and _st(u, "opcode_pos") == ("i", POS) and
-                           _st(u, "instruction_index") == ("i", 7) and _st(u, "label") == T.sym("label"), sp=sp,
+                           lwp == T.V("len", wparam) and _st(u, RF["wide"]) == ("b", True) and _st(u, RF["base"]) == ("i", POS) and
+                           _st(u, RF["index"]) == ("i", 7) and _st(u, RF["label"]) == T.sym("label"), sp=sp,
                            expect="record {opcode_pos, label_write_pos = w.len() before the write, wide = true}, then an i32 placeholder",
                            got=(_writes_show(ev.writes), T.show(u) if u else len(pushes), order))
     # call sites in write_code: the position handed to the helpers is the code length at the start of the instruction
@@ -1573,17 +1667,21 @@ def _len_root_try(ex, e, depth=0):
 
 
 def _fixup_loop(cx, R, S, wc):
-    loops = [n for n in H.walk(wc["body"]) if n.get("k") == "for" and "UnwrittenLabel" in (n.get("iter_ty") or "")]
+    loops = [n for n in [fixup_for(wc)] if n is not None]
     if not R.anchor("R02.5", "fix-up loop over the unwritten labels in write_code", len(loops) == 1, sp=wc["sp"]):
         return
     lp = loops[0]
     pid = H.pat_bindings(lp["pat"])
     if not R.anchor("R02.5", "binding of the fix-up loop", len(pid) == 1, sp=lp["sp"]):
         return
+    roles = unwritten_roles(cx, wc)
+    if not R.anchor("R02.5", "pending-label record with one bool field (narrow / wide)", roles is not None, sp=lp["sp"]):
+        return
+    fields, wide_f = roles["fields"], roles["wide"]
+    found = {}
     for name, wide, fits in (("wide", True, True), ("narrow-fits", False, True), ("narrow-overflow", False, False)):
         ev = EvalH(mode={"fits": fits})
-        rec = ("st", "UnwrittenLabel", {"opcode_pos": ("i", 1000), "label_write_pos": ("i", 1001), "wide": ("b", wide),
-                                        "label": T.sym("lbl"), "instruction_index": ("i", 7)})
+        rec = ("st", roles["name"], {f: (("b", wide) if f == wide_f else T.sym("@" + f)) for f in fields})
         env = {pid[0][0]: rec}
         restarted = False
         try:
@@ -1592,47 +1690,127 @@ def _fixup_loop(cx, R, S, wc):
             restarted = True
         except T.Return as r:
             pass
-        puts = [(t[1], t[2]) for t in ev.trace if t[0] == "put"]
-        off = T.V("offset", ("i", 1000), T.V("target-of", T.sym("lbl")))
+        puts = [t for t in ev.trace if t[0] == "put"]
+        def fieldsym(v):
+            return v[1][1:] if v and v[0] == "sym" and v[1].startswith("@") else None
+        shape = None
+        if len(puts) == 1 and len(puts[0][2]) == 3:
+            pos, val = puts[0][2][1], puts[0][2][2]
+            if val[0] == "v" and val[1] == "offset" and len(val[2]) == 2 and val[2][1][0] == "v" and val[2][1][1] == "target-of":
+                shape = {"pos": fieldsym(pos), "base": fieldsym(val[2][0]), "label": fieldsym(val[2][1][2][0]), "kind": puts[0][1]}
         if name == "wide":
-            ok = len(puts) == 1 and puts[0][0] == "put_i32_at" and puts[0][1][1:] == [("i", 1001), off] and not restarted
-            exp = "put_i32_at(w, label_write_pos, offset(opcode_pos, target of the record's label))"
+            ok = shape is not None and shape["kind"] == "i32" and all(shape[k] for k in ("pos", "base", "label")) and not restarted
+            exp = "one i32 patched at the recorded write position with offset(recorded base position, target of the recorded label)"
+            if ok:
+                found.update(shape)
         elif name == "narrow-fits":
-            ok = len(puts) == 1 and puts[0][0] == "put_i16_at" and puts[0][1][1:] == [("i", 1001), off] and not restarted
-            exp = "put_i16_at(w, label_write_pos, offset(opcode_pos, target)) only when i16::try_from succeeds"
+            ok = shape is not None and shape["kind"] == "i16" and not restarted and all(found.get(k) == shape[k] for k in ("pos", "base", "label"))
+            exp = "one i16 patched at the same recorded position / base / label, only when the offset fits an i16"
         else:
-            ok = not puts and restarted
-            exp = "nothing patched, the attempt is restarted"
-        R.inst("R02.5", "fixup:%s" % name, ok, sp=lp["sp"], expect=exp, got=[(p[0], [T.show(a) for a in p[1]]) for p in puts] + (["restart"] if restarted else []))
+            ins = [t[1] for t in ev.trace if t[0] == "insert"]
+            ok = not puts and restarted and len(ins) == 1 and fieldsym(ins[0]) is not None
+            if ok:
+                found["index"] = fieldsym(ins[0])
+            exp = "nothing patched, the record's instruction index goes into `wide`, the attempt is restarted"
+        R.inst("R02.5", "fixup:%s" % name, ok, sp=lp["sp"], expect=exp,
+               got=[(t[1], [T.show(a_) for a_ in t[2]]) for t in puts] + [("insert", T.show(t[1])) for t in ev.trace if t[0] == "insert"] + (["restart"] if restarted else []))
+    R.inst("R02.5", "fixup:roles", len(set(found.get(k) for k in ("pos", "base", "label", "index"))) == 4 and None not in [found.get(k) for k in ("pos", "base", "label", "index")],
+           sp=lp["sp"], got=found, nontrivial=False, expect="write position, base position, label and instruction index are four different fields of the record")
+    cx.unwritten_found = found
     # the patch functions write the big-endian bytes of the value at pos, pos+1, ..
-    for fn, width in (("put_i16_at", 2), ("put_i32_at", 4)):
-        fb = next((b for b in cx.duke.bodies if b.get("name") == fn and b["key"].startswith(W)), None)
-        if not R.anchor("R02.5", "fn " + fn, fb):
-            continue
+    pfs = {}
+    for n in H.walk(lp["body"]):
+        if n.get("k") == "call":
+            fb = _patch_fn(n.get("callee") or {})
+            if fb is not None:
+                pfs[fb["key"]] = fb
+    R.inst("R02.5", "patch:functions", sorted(fb["inputs"][2] for fb in pfs.values()) == ["i16", "i32"], sp=lp["sp"], nontrivial=False,
+           expect="one i16 and one i32 patch helper called from the fix-up loop", got=sorted(fb["name"] for fb in pfs.values()))
+    for fb in pfs.values():
+        width = 2 if fb["inputs"][2] == "i16" else 4
         ids = [H.pat_bindings(p)[0][0] if H.pat_bindings(p) else None for p in fb["params"]]
-        lets = [n for n in H.walk(fb["body"]) if n.get("k") == "let" and n["pat"].get("k") == "pslice"]
+        def is_p(e, i):
+            l = H.local_of(H.peel(e, casts=True))
+            return l is not None and l[0] == ids[i]
         ok = False
         got = None
-        if len(lets) == 1:
+        lets = [n for n in H.walk(fb["body"]) if n.get("k") == "let" and n["pat"].get("k") == "pslice"]
+        copies = [n for n in H.walk(fb["body"]) if n.get("k") == "mcall" and n["name"] == "copy_from_slice"]
+        if len(lets) == 1 and not copies:
             init = H.peel(lets[0]["init"])
-            be = init.get("k") == "mcall" and init["name"] == "to_be_bytes" and H.local_of(init["recv"]) and H.local_of(init["recv"])[0] == ids[2]
+            be = init.get("k") == "mcall" and init["name"] == "to_be_bytes" and is_p(init["recv"], 2)
             binds = [H.pat_bindings(x)[0][0] for x in lets[0]["pat"]["before"] if H.pat_bindings(x)]
             assigns = {}
             for n in H.walk(fb["body"]):
                 if n.get("k") == "assign":
                     l = H.peel(n["l"])
-                    if l.get("k") == "index" and H.local_of(l["e"]) and H.local_of(l["e"])[0] == ids[0]:
+                    if l.get("k") == "index" and is_p(l["e"], 0):
                         i = H.peel(l["i"])
                         off = None
-                        if H.local_of(i) and H.local_of(i)[0] == ids[1]:
+                        if is_p(i, 1):
                             off = 0
-                        elif i.get("k") == "bin" and i["op"] == "+" and H.local_of(i["l"]) and H.local_of(i["l"])[0] == ids[1]:
+                        elif i.get("k") == "bin" and i["op"] == "+" and is_p(i["l"], 1):
                             off = H.const_value(i["r"])
+                        elif i.get("k") == "bin" and i["op"] == "+" and is_p(i["r"], 1):
+                            off = H.const_value(i["l"])
                         r = H.local_of(n["r"])
                         assigns[off] = r[0] if r else None
             got = (be, len(binds), sorted(assigns, key=str))
-            ok = be and len(binds) == width and assigns == {k: binds[k] for k in range(width)}
-        R.inst("R02.5", "patch:%s" % fn, ok, sp=fb["sp"], expect="writer[pos+k] = k-th big-endian byte of the value, k = 0..%d" % (width - 1), got=got)
+            ok = bool(be) and len(binds) == width and assigns == {k: binds[k] for k in range(width)}
+        elif len(copies) == 1 and not lets:
+            # buffer[pos..pos + N].copy_from_slice(&value.to_be_bytes())
+            cp = copies[0]
+            src = H.peel(cp["args"][0])
+            be = src.get("k") == "mcall" and src["name"] == "to_be_bytes" and is_p(src["recv"], 2)
+            dst = H.peel(cp["recv"])
+            rng_ok = False
+            if dst.get("k") == "index" and is_p(dst["e"], 0):
+                r_ = H.peel(dst["i"])
+                if r_.get("k") == "struct" and (r_.get("adt") or "").endswith("Range"):
+                    st = next((f["e"] for f in r_["fields"] if f["name"] == "start"), None)
+                    en = next((f["e"] for f in r_["fields"] if f["name"] == "end"), None)
+                    en0 = H.peel(en, casts=True) if en is not None else {}
+                    rng_ok = st is not None and is_p(st, 1) and en0.get("k") == "bin" and en0["op"] == "+" and \
+                        ((is_p(en0["l"], 1) and H.const_value(en0["r"]) == width) or (is_p(en0["r"], 1) and H.const_value(en0["l"]) == width))
+            got = (bool(be), rng_ok)
+            ok = bool(be) and rng_ok
+        else:
+            R.unrecognised("R02.5", "patch:%s" % fb["name"], "byte-patching helper is neither `let [a, b, ..] = v.to_be_bytes(); buf[pos + k] = ..` nor "
+                                                              "`buf[pos..pos + N].copy_from_slice(&v.to_be_bytes())`", sp=fb["sp"])
+            continue
+        R.inst("R02.5", "patch:%s" % fb["name"], ok, sp=fb["sp"], expect="buffer[pos+k] = k-th big-endian byte of the value, k = 0..%d" % (width - 1), got=got)
+
+
+def fixup_for(wc):
+    """The fix-up loop of write_code, by role: the `for` over a vector of a record type of the writer whose body calls a byte-patching
+    helper."""
+    out = []
+    for n in H.walk(wc["body"]):
+        if n.get("k") == "for" and "duke::simple_class_writer::" in (n.get("iter_ty") or ""):
+            if any(x.get("k") == "call" and _patch_fn(x.get("callee") or {}) is not None for x in H.walk(n["body"])):
+                out.append(n)
+    return out[0] if len(out) == 1 else None
+
+
+def pending_adt(cx, wc):
+    lp = fixup_for(wc)
+    if lp is None:
+        return None
+    m_ = re.search(r"(duke::simple_class_writer::\w+)", lp.get("iter_ty") or "")
+    return cx.duke.adts.get(m_.group(1)) if m_ else None
+
+
+def unwritten_roles(cx, wc):
+    """Field names of the writer's pending-label record and its single bool field (narrow / wide slot)."""
+    adt = pending_adt(cx, wc)
+    if adt is None or adt["kind"] != "struct":
+        return None
+    fs = adt["variants"][0]["fields"]
+    bools = [f["name"] for f in fs if f["ty"] == "bool"]
+    if len(bools) != 1:
+        return None
+    return {"fields": [f["name"] for f in fs], "wide": bools[0], "types": {f["name"]: f["ty"] for f in fs}, "name": adt["path"].rsplit("::", 1)[-1],
+            "path": adt["path"]}
 
 
 def _switch_checks(cx, R, S, wc, m):
@@ -1855,20 +2033,32 @@ def r02_6(cx, R, S):
     R.inst("R02.6", "restart:inside-attempt-loop", inside_attempt, sp=ins["sp"], nontrivial=False)
     # the inserted value is the record's instruction index
     f, _ = U._place_field(ins["args"][0]) if ins["args"] else (None, None)
-    R.inst("R02.6", "restart:inserts-instruction-index", f == "instruction_index", sp=ins["sp"], expect="wide.insert(<record>.instruction_index)", got=H.render(ins))
+    idx_role = (getattr(cx, "unwritten_found", {}) or {}).get("index")
+    # the field inserted must be the one the jump helpers fill with the instruction index (roles: R02.5 fixup / helper records)
+    R.inst("R02.6", "restart:inserts-instruction-index", f is not None and f == idx_role, sp=ins["sp"], expect="wide.insert(<record>.<instruction index field>)",
+           got=H.render(ins))
     stmts = blk["stmts"] + ([blk["tail"]] if blk and "tail" in blk else []) if blk else []
     idx = next((i for i, s_ in enumerate(stmts) if any(x is ins for x in H.walk(s_))), None)
     after = stmts[idx + 1:] if idx is not None else []
-    has_next = any(x.get("k") == "mcall" and x["name"] == "next_attempt" and "Labels" in ((x.get("callee") or {}).get("impl_ty") or "") for s_ in after for x in H.walk(s_))
-    R.inst("R02.6", "restart:labels-reset", has_next, sp=ins["sp"], expect="labels.next_attempt() after wide.insert and before the restart")
+    reset_calls = []
+    for s_ in after:
+        for x in H.walk(s_):
+            if x.get("k") == "mcall" and "simple_class_writer::labels::Labels" in ((x.get("callee") or {}).get("impl_ty") or ""):
+                fb_ = cx.duke.by_key.get((x.get("callee") or {}).get("key"))
+                if fb_ is not None and _resets_all(cx, fb_)[0]:
+                    reset_calls.append(fb_)
+    has_next = bool(reset_calls)
+    R.inst("R02.6", "restart:labels-reset", has_next, sp=ins["sp"], expect="a Labels method that forgets every recorded position, after wide.insert and before the restart")
     fresh = False
     for s_ in after:
         for x in H.walk(s_):
             if x.get("k") == "assign" and ex.buf_of(x["l"]) == code_buf:
                 r = H.peel(x["r"])
                 nm = H.callee_name(r) if r.get("k") in ("call", "mcall") else None
-                fresh = nm in ("new", "with_capacity") and "Vec" in (((r.get("callee") or {}).get("path")) or "")
-    R.inst("R02.6", "restart:code-buffer-replaced", fresh, sp=ins["sp"], expect="w = Vec::new() / Vec::with_capacity(..) before the restart")
+                fresh = fresh or (nm in ("new", "with_capacity", "default") and "Vec" in (((r.get("callee") or {}).get("path")) or "" + (r.get("ty") or "")))
+            if x.get("k") == "mcall" and ex.buf_of(x["recv"]) == code_buf and (x["name"] == "clear" or (x["name"] == "truncate" and H.const_value(x["args"][0]) == 0)):
+                fresh = True
+    R.inst("R02.6", "restart:code-buffer-replaced", fresh, sp=ins["sp"], expect="the code buffer is emptied (w = Vec::new() / with_capacity(..) / w.clear()) before the restart")
     conts = [x for s_ in after for x in H.walk(s_) if x.get("k") == "continue"]
     target_ok = False
     if len(conts) == 1:
@@ -1884,7 +2074,7 @@ def r02_6(cx, R, S):
                 others.append(H.render(n))
     R.inst("R02.6", "restart:no-other-restart-path", not others, sp=attempt["sp"], got=others or None, nontrivial=False)
     # the unwritten list is per attempt
-    ul = [n for n, qs in H.walk_with_parents(wc["body"]) if n.get("k") == "let" and n["pat"].get("k") == "bind" and "Vec<duke::simple_class_writer::UnwrittenLabel" in (n["pat"].get("ty") or "")
+    ul = [n for n, qs in H.walk_with_parents(wc["body"]) if n.get("k") == "let" and n["pat"].get("k") == "bind" and (pending_adt(cx, wc) or {}).get("path", "?") in (n["pat"].get("ty") or "") and "Vec<" in (n["pat"].get("ty") or "")
           and any(q is attempt for q in qs)]
     R.inst("R02.6", "unwritten:fresh-per-attempt", len(ul) == 1, sp=attempt["sp"], expect="`let mut unwritten = Vec::new()` inside the attempt loop")
     # the loop ends only after the fix-up loop completed: the `break` is the last statement of the attempt body
@@ -1893,23 +2083,35 @@ def r02_6(cx, R, S):
     R.inst("R02.6", "attempt:break-after-fixups", last is not None and H.peel(last).get("k") == "break" and "label" not in H.peel(last) or
            (last is not None and H.peel(last).get("k") == "break" and H.peel(last).get("label") == attempt.get("label")), sp=attempt["sp"])
     # Labels::next_attempt forgets everything
-    na = cx.duke.fn("next_attempt", impl_ty="simple_class_writer::labels::Labels")
-    if R.anchor("R02.6", "fn Labels::next_attempt", na):
-        adt = cx.duke.adts.get("duke::simple_class_writer::labels::Labels")
-        fields = [f["name"] for f in adt["variants"][0]["fields"]] if adt else []
-        reset = set()
-        for n in H.walk(na["body"]):
-            if n.get("k") == "assign":
-                root, path = H.place_root(n["l"])
-                r = H.peel(n["r"])
-                nm = H.callee_name(r) if r.get("k") in ("call", "mcall") else None
-                if path and nm in ("new", "with_capacity", "default"):
-                    reset.add(path[-1])
-            if n.get("k") == "mcall" and n["name"] == "clear":
-                root, path = H.place_root(n["recv"])
-                if path:
-                    reset.add(path[-1])
-        R.inst("R02.6", "next_attempt:resets-all-maps", bool(fields) and set(fields) == reset, sp=na["sp"], expect=sorted(fields), got=sorted(reset))
+    na = reset_calls[0] if reset_calls else cx.duke.fn("next_attempt", impl_ty="simple_class_writer::labels::Labels")
+    if R.anchor("R02.6", "the Labels method called on restart", na):
+        ok_, fields, reset = _resets_all(cx, na)
+        R.inst("R02.6", "next_attempt:resets-all-maps", ok_, sp=na["sp"], expect=sorted(fields), got=sorted(reset))
+
+
+def _resets_all(cx, fb):
+    """(all fields reset?, fields, fields reset) for a `&mut self` method of the writer's Labels."""
+    adt = cx.duke.adts.get("duke::simple_class_writer::labels::Labels")
+    fields = [f["name"] for f in adt["variants"][0]["fields"]] if adt else []
+    reset = set()
+    for n in H.walk(fb["body"]):
+        if n.get("k") == "assign":
+            root, path = H.place_root(n["l"])
+            r = H.peel(n["r"])
+            nm = H.callee_name(r) if r.get("k") in ("call", "mcall") else None
+            fresh = nm in ("new", "with_capacity", "default")
+            if path and fresh:
+                reset.add(path[-1])
+            elif not path and root is not None and fresh and "Labels" in (r.get("ty") or ""):
+                reset |= set(fields)          # `*self = Labels::new()`
+            elif not path and root is not None and r.get("k") == "struct" and (r.get("adt") or "").endswith("labels::Labels"):
+                if all(H.callee_name(H.peel(f["e"])) in ("new", "with_capacity", "default") for f in r["fields"]) and "base" not in r:
+                    reset |= {f["name"] for f in r["fields"]}
+        if n.get("k") == "mcall" and n["name"] == "clear":
+            root, path = H.place_root(n["recv"])
+            if path:
+                reset.add(path[-1])
+    return (bool(fields) and set(fields) == reset), fields, reset
 
 
 # ===================================================================================================== R02.7
@@ -1997,6 +2199,7 @@ def r02_7(cx, R, S):
         R.inst("R02.7", "write-consumes-pool", bool(pw["inputs"]) and not pw["inputs"][0].lstrip().startswith("&"), sp=pw["sp"],
                expect="fn write(self, ..)", got=pw["inputs"][:1], detail="taking the pool by value makes a later put_* a compile error")
         wi = cx.main(pw, "w")
+        wi = expand_helper_refs(cx, wi)
         walt = next((it for (_b, it) in _flat_items(wi) if it.get("i") == "alt"), None)
         if R.anchor("R02.7", "tag dispatch in PoolWrite::write", walt, sp=pw["sp"]):
             width = {"u8": 1, "u16": 2, "u32": 4, "u16:len": 2}
@@ -2096,6 +2299,7 @@ def r02_7(cx, R, S):
 
 
 # ===================================================================================================== pool entry construction (part of R02.7)
+import re
 import json as _json
 import os as _os
 
@@ -2251,7 +2455,7 @@ def r02_labels_prims(cx, R, S):
         inloop = []
         after = []
         loop_for = next((n for n in H.walk(wc["body"]) if n.get("k") == "for" and any(x is m for x in H.walk(n["body"]))), None)
-        fix = next((n for n in H.walk(wc["body"]) if n.get("k") == "for" and "UnwrittenLabel" in (n.get("iter_ty") or "")), None)
+        fix = fixup_for(wc)
         for r_ in regs:
             if loop_for is not None and any(x is r_ for x in H.walk(loop_for["body"])):
                 inloop.append(r_)
@@ -2711,16 +2915,30 @@ def r02_misc(cx, R, S):
     rr, ww = cx.rfn("read"), cx.wfn("write")
     if pr and pw and rr and ww:
         for key, rb, wb in (("pool:Utf8", pr, pw), ("attr:class:SourceDebugExtension", rr, ww)):
-            ex, lays = cx.lay(wb, "w")
             dec = uses(rb, "from_vec_to_string")
-            enc = uses(wb, "from_string_to_vec")
+            # the writer function and the private helpers it calls (a helper is a piece of its caller)
+            wfns, todo = {}, [wb]
+            while todo:
+                f_ = todo.pop()
+                if f_["key"] in wfns:
+                    continue
+                wfns[f_["key"]] = f_
+                for n in H.walk(f_["body"]):
+                    if n.get("k") in ("call", "mcall"):
+                        g_ = _inline_map(duke).get((n.get("callee") or {}).get("inst_key") or (n.get("callee") or {}).get("key"))
+                        if g_ is not None and U.has_stream_ops(g_["body"], "w") and ("::pool::" in g_["key"]) == ("::pool::" in wb["key"]) and not g_["name"].startswith(("write_field", "write_method", "write_code",
+                                                                                                                  "write_record_component", "write_annotations", "write_element", "write_type", "write_module")):
+                            todo.append(g_)
+            enc = [(f_, c_) for f_ in wfns.values() for c_ in uses(f_, "from_string_to_vec")]
             # the encoded vector is what gets written
             good = False
-            for c_ in enc:
-                for n in H.walk(wb["body"]):
+            for f_, c_ in enc:
+                for n in H.walk(f_["body"]):
                     if n.get("k") == "let" and n.get("init") is not None and any(x is c_ for x in H.walk(n["init"])) and n["pat"].get("k") == "bind":
                         vid = n["pat"]["id"]
                         good = good or any(x.get("k") == "mcall" and x["name"] == "write_u8_slice" and H.local_of(x["args"][0]) and H.local_of(x["args"][0])[0] == vid
-                                           for x in H.walk(wb["body"]))
+                                           for x in H.walk(f_["body"]))
+                    if n.get("k") == "mcall" and n["name"] == "write_u8_slice" and any(x is c_ for x in H.walk(n["args"][0])):
+                        good = True
             R.inst("R02.1", "bytes-encoding:%s=modified-utf8" % key, len(dec) == 1 and len(enc) == 1 and good, sp=wb["sp"],
                    expect="reader: jstring::from_vec_to_string, writer: the bytes of jstring::from_string_to_vec", got=(len(dec), len(enc), good))
